@@ -24,6 +24,14 @@ func init() {
 			c11R5(c, "C11.R5")
 			ruleChecksumAfterMutation(c, "C11.R7", 5) // "opening succeeds using the other meta page": the other page is valid only if every meta writer checksums after its last change
 			ruleMetaSlot(c, "C11.R8") // ... and only if commits alternate between the two slots (never overwrite the newest committed meta)
+			ruleTestedErrorsPropagate(c, "C11.R9", []string{rootPkg, commonPath}, 20, func(n string) bool {
+				for _, k := range []string{"bbolt.Open", "(*DB).init", "(*DB).mmap", "bbolt.mmap", "bbolt.munmap", "(*DB).munmap", "getPageSize", "bbolt.flock", "bbolt.funlock", "(*DB).fileSize", "(*DB).mmapSize", "mlock", "munlock", "(*DB).close", "(*Meta).Validate", "(*DB).openFile"} {
+					if strings.Contains(n, k) {
+						return true
+					}
+				}
+				return false
+			}) // "opening returns an error instead of ... presenting data": no tested error on Open's path leads to a success return
 			ruleFreeSetEntry(c, "C11.R6") // falling back to the older meta presents ITS state only if that state's pages were not recycled: pages freed by commit N become allocatable at the begin of writer N+1 at the earliest
 		},
 	})
